@@ -47,6 +47,10 @@ INVARIANTS = {
     'C05': (['C05_DepsAppliedBeforeInvoke', 'C05_SeqStepsAlone', 'C05_OncePerPhase'],
             ['C05_StepsOnlyAfterBatch']),
     'C12': ([], ['C12_RowAfterSteps', 'C12_RowAtNow', 'C12_RowPerBatch']),
+    'C10': (['C10_FrontIsLive', 'C10_DeletedNotInFlight', 'C01_OnTime',
+             'C01_NothingInFlightAtReturn', 'C02_TsIsIntervalLength', 'C03_NoOvershoot',
+             'C03_ReturnExact'],
+            ['C10_FreshStartsNow', 'C03_Monotone', 'C03_Progress', 'C03_Terminates']),
 }
 
 # deviation -> (property, names of the properties TLC must report violated)
@@ -59,7 +63,8 @@ DEVIATIONS = {
 
 
 def mc_cfg(prop, procs, ts, intervals, max_calls, horizon, emit_step=1, dev=(),
-           steps=(), deps='NoDeps', seq='NoSeq', shared=None, all_props=False):
+           steps=(), deps='NoDeps', seq='NoSeq', shared=None, all_props=False,
+           directors=(), spare=(), init_live=None, extra_inv=(), extra_act=()):
     inv, act = INVARIANTS[prop]
     if all_props:
         inv = sorted({i for p in INVARIANTS for i in INVARIANTS[p][0]})
@@ -67,6 +72,9 @@ def mc_cfg(prop, procs, ts, intervals, max_calls, horizon, emit_step=1, dev=(),
     q = lambda xs: '{' + ', '.join('"%s"' % x for x in xs) + '}'
     n = lambda xs: '{' + ', '.join(str(x) for x in xs) + '}'
     shared = procs if shared is None else shared
+    inv = list(inv) + list(extra_inv)
+    act = list(act) + list(extra_act)
+    init_live = procs if init_live is None else init_live
     lines = [
         'SPECIFICATION MCSpec', 'CONSTANTS',
         '  Procs = ' + q(procs), '  Steps = ' + q(steps),
@@ -74,7 +82,8 @@ def mc_cfg(prop, procs, ts, intervals, max_calls, horizon, emit_step=1, dev=(),
         '  TS = ' + n(ts), '  Intervals = ' + n(intervals),
         '  MaxCalls = %d' % max_calls, '  Horizon = %d' % horizon,
         '  EmitStep = %d' % emit_step, '  Dev = ' + q(dev),
-        '  SharedW = ' + q(shared), '  InitLive = ' + q(procs),
+        '  SharedW = ' + q(shared), '  Directors = ' + q(directors), '  Spare = ' + q(spare),
+        '  InitLive = ' + q(init_live),
         '  InitSteps = ' + q(steps), '  InitDeps <- ' + deps,
         '  InitSeq <- ' + seq, 'CHECK_DEADLOCK FALSE',
         'INVARIANTS', '  TypeOK']
@@ -180,6 +189,9 @@ def gen_scenarios(tier, seed, want_steps=False):
                                             CALL_SETS_QUICK[:2], 2))
         nrand = 6000
     for i in range(nrand):
+        if i % 5 == 4:
+            out.append(er.director_scenario(rng))
+            continue
         out.append(er.random_scenario(
             rng, nprocs=rng.randint(1, 4 if tier == 'thorough' else 3),
             state_dependent=(i % 3 == 0),
@@ -212,10 +224,24 @@ def interesting(prop, recs):
         return sum(1 for r in recs if r['ev'] == 'step') >= 2
     if prop == 'C12':
         return sum(1 for r in recs if r['ev'] == 'row') >= 3
+    if prop == 'C10':
+        return any(p.get('sop', {}).get('op') != 'none' for p in polls)
     return True
 
 
-def validate(rep, prop, scenarios, scratch, label='impl'):
+def struct_check(rep, tier, seed, scratch):
+    """C10, scheduler side: processes deleted and created while updates with
+    different timesteps are in flight."""
+    kw = dict(procs=['p1', 'p2', 'p3'], init_live=['p1', 'p2'], directors=['p1'],
+              spare=['p3'], shared=['p2', 'p3'], ts=[1, 2], intervals=[2, 3],
+              max_calls=2, horizon=4 if tier == 'quick' else 5)
+    run_mc(rep, 'C10', scratch, 'MC_C10_struct', mc_cfg('C10', **kw))
+    rng = random.Random(seed + 10)
+    scs = [er.director_scenario(rng) for _ in range(400 if tier == 'quick' else 4000)]
+    validate(rep, 'C10', scs, scratch, label='struct', struct_owner='C10')
+
+
+def validate(rep, prop, scenarios, scratch, label='impl', struct_owner=None):
     traces = []
     for sc in scenarios:
         raw = er.run_scenario(sc, watchdog=5.0)
@@ -247,6 +273,11 @@ def validate(rep, prop, scenarios, scratch, label='impl'):
             owners.update(RULE_OWNER.get(r, []))
         if not owners:
             owners = {'C03'} if not rules or rules <= {'struct'} else set()
+        # once a structural operation has been issued, a scheduling failure is
+        # (also) a failure to run exactly what is in the hierarchy
+        if struct_owner and any(r.get('ev') == 'poll' and r.get('sop', {}).get('op') != 'none'
+                                for r in traces[t][:stuck]):
+            owners.add(struct_owner)
         if prop in owners:
             rec = traces[t][stuck - 1] if 0 < stuck <= len(traces[t]) else None
             rep.violation(
@@ -290,6 +321,12 @@ def check(prop, tier, seed):
                 'every acyclic flow over 3%s steps x every ordering of up to '
                 '2 legacy derivers' % (' and 4' if tier == 'thorough' else ''))
         validate(rep, prop, scs, scratch)
+        if prop == 'C05':
+            # steps created, moved and deleted at run time (also by a step, during the
+            # phase): what every step saw of its upstream step, per tick
+            from vv import props_store
+            props_store.validate(rep, 'C05', props_store.histories(tier, seed), scratch,
+                                 label='store-steps')
         if prop == 'C04':
             from vv import props_order
             props_order.permutation_check(rep, tier, seed, scratch)
